@@ -474,8 +474,6 @@ Qed.
 
 (* ------------------------------------------------------------------------------------------------------- *)
 (** * lookups *)
-Fixpoint first_idx {A} (f : A -> bool) (l : list A) : option nat :=
-  match l with [] => None | x :: r => if f x then Some O else option_map S (first_idx f r) end.
 Lemma first_idx_sound : forall (A : Type) (f : A -> bool) l k, first_idx f l = Some k ->
   exists x, nth_error l k = Some x /\ f x = true /\ forall j y, (j < k)%nat -> nth_error l j = Some y -> f y = false.
 Proof.
